@@ -1,5 +1,6 @@
 import PynetVerif.Model.SExp
 import PynetVerif.Model.Timeouts
+import PynetVerif.Model.Idle
 namespace PynetVerif.Driver
 open PynetVerif.Timeouts
 
@@ -20,6 +21,15 @@ def timeoutsOps (op : String) (args : List SExp) : Option SExp :=
         | .ok d e => .list [.sym "ok", .bytes d, .nat e]
         | .timedOut e => .list [.sym "timeout", .nat e]
         | .blocked => .sym "blocked")
+  | "idle.aborted", [.sym pol, .nat t, .list cs] =>
+    -- `(idle.aborted <perPdu|perChunk> <T> ((gap last) ...))` → T/F
+    let chunk : SExp → Option (Nat × Bool)
+      | .list [.nat g, .sym l] => some (g, l == "T")
+      | _ => none
+    match cs.mapM chunk with
+    | none => some (.sym "ERR:args")
+    | some chunks =>
+      some (SExp.ofBool (PynetVerif.Idle.aborted (if pol == "perChunk" then .perChunk else .perPdu) t 0 chunks))
   | _, _ => none
 
 end PynetVerif.Driver
